@@ -164,6 +164,15 @@ def tag_exceeds_30_bits(text):
     return any(int(n) >= 2**30 for n in re.findall(r"\[\s*(?:UNIVERSAL|APPLICATION|PRIVATE|CONTEXT)?\s*(\d+)\s*\]", strip_comments(text)))
 
 
+def negative_default(text):
+    """INTEGER/ENUMERATED component with a negative DEFAULT: a literal, or the name of an item / named number / value whose number is negative"""
+    t = strip_comments(text)
+    if re.search(r"\bDEFAULT\s+-\s*\d", t):
+        return True
+    neg = set(re.findall(r"([a-z][\w-]*)\s*\(\s*-\s*\d+\s*\)", t)) | set(re.findall(r"(?m)^\s*([a-z][\w-]*)\s+INTEGER\s*::=\s*-\s*\d", t))
+    return any(d in neg for d in re.findall(r"\bDEFAULT\s+([a-z][\w-]*)", t))
+
+
 def match_finding(stage, job):
     """-> finding id or None.  Each rule = symptom signature (the site) AND a predicate on (module text, options)."""
     text, opts = job["mod"]["text"], job["opts"]
@@ -188,8 +197,10 @@ def match_finding(stage, job):
         if re.search(r"expected specifier-qualifier-list before .typedef.|invalid use of undefined type .struct \w*Member\w*", blog) \
            and "-fcompound-names" in opts and nested_anon_of(text):
             return "C10-nested-anonymous-of-struct"
-        if re.search(r"before .-. token|asn_DFL_\d+_(cmp|set)_. undeclared", blog) and re.search(r"\bDEFAULT\s+-\s*\d", strip_comments(text)):
+        if re.search(r"before .-. token|asn_DFL_\d+_(cmp|set)_. undeclared", blog) and negative_default(text):
             return "C10-negative-integer-default"
+        if re.search(r"missing terminating|expected .* before|has no member named|does not name a type", blog) and re.search(r'DEFAULT\s+"[^"\n]*\*/', text):
+            return "C10-default-string-breaks-comment"
         if re.search(r"unknown type name|does not name a type", blog) and param_nested(text):
             return "C10-param-circular-include"
         if re.search(r"empty enum is invalid|asn_MAP_\w+_tag2el_\d+. undeclared", blog) and has_empty_set(text):
